@@ -89,18 +89,32 @@ static void collections() {
   std::multiset<long> expect; std::set<long> eset;
   for (size_t i = 0; i < upd.size(); i++) { expect.insert(upd[i].v * 1000 + (long)i); eset.insert(upd[i].v); }
   apply_parallel([&](const Upd& u, size_t i) { long x = u.v * 1000 + (long)i; bag.push(x); pv.get().push_back(x); pd.get().push_front(x); ps.get().insert(u.v); pl.get().push_back(x); });
-  auto cmp = [&](const char* what, std::multiset<long> got) { if (got != expect) vsim_fail("c15.collection", "%s holds %zu elements, sequential model %zu (or different values)", what, got.size(), expect.size()); };
+  // what was filled by n threads is still all there when fewer (or more) threads are active afterwards
+  int after = wl_chance(40) ? (int)wl_range(1, (int)galois::substrate::getThreadPool().getMaxThreads()) : nthr;
+  if (after != nthr) galois::setActiveThreads(after);
+  struct Restore { ~Restore() { galois::setActiveThreads(nthr); } } restore;
+  auto cmp = [&](const char* what, std::multiset<long> got) { if (got != expect) vsim_fail("c15.collection", "%s holds %zu elements, sequential model %zu (or different values; filled by %d threads, %d active now)", what, got.size(), expect.size(), nthr, (int)galois::getActiveThreads()); };
   cmp("InsertBag", std::multiset<long>(bag.begin(), bag.end()));
   cmp("PerThreadVector", std::multiset<long>(pv.begin_all(), pv.end_all()));
   cmp("PerThreadDeque", std::multiset<long>(pd.begin_all(), pd.end_all()));
   cmp("PerThreadList", std::multiset<long>(pl.begin_all(), pl.end_all()));
-  if (pv.size_all() != expect.size()) vsim_fail("c15.collection", "PerThreadVector::size_all %zu != %zu", (size_t)pv.size_all(), expect.size());
+  if (pv.size_all() != expect.size() || pd.size_all() != expect.size() || pl.size_all() != expect.size())
+    vsim_fail("c15.collection", "size_all of PerThreadVector/Deque/List is %zu/%zu/%zu, %zu elements were inserted by %d threads (%d active now)", (size_t)pv.size_all(), (size_t)pd.size_all(), (size_t)pl.size_all(), expect.size(), nthr, (int)galois::getActiveThreads());
+  if (pv.empty_all() != expect.empty() || pd.empty_all() != expect.empty()) vsim_fail("c15.collection", "empty_all disagrees with the %zu inserted elements", expect.size());
   std::set<long> gs; for (unsigned t = 0; t < ps.numRows(); ++t) for (long x : ps.get(t)) gs.insert(x);  // (global iteration of PerThreadSet does not compile in this tree)
   if (gs != eset) vsim_fail("c15.collection", "PerThreadSet union differs from std::set model");
   // parallel iteration over the filled bag sees every element once
   galois::GAccumulator<long> sum; long es = 0; for (long x : expect) es += x;
   galois::do_all(galois::iterate(bag), [&](long x) { sum += x; }, galois::steal(), galois::chunk_size<2>());
-  if (sum.reduce() != es) vsim_fail("c15.collection", "do_all over InsertBag sums to %ld, expected %ld", sum.reduce(), es);
+  // known finding (known_findings.txt): parallel iteration over a bag uses per-thread local iterators, so with FEWER active
+  // threads than filled it the heads of the now inactive threads are silently skipped; every other case stays fatal
+  bool fewer = (int)galois::getActiveThreads() < nthr;
+  auto bag_loop_wrong = [&](const char* what, long got) {
+    if (fewer && vsim_param_fixed("exercise_known", 0)) vsim_fail("c15.bag-fewer-threads", "%s: the loop saw a sum of %ld, the bag holds %ld (filled by %d threads, %d active now)", what, got, es, nthr, (int)galois::getActiveThreads());
+    if (fewer) vsim_known("insertbag-doall-fewer-threads", "do_all over an InsertBag filled by more threads than are active now skips the inactive threads' elements");
+    else vsim_fail("c15.collection", "%s sums to %ld, expected %ld", what, got, es);
+  };
+  if (sum.reduce() != es) bag_loop_wrong("do_all over InsertBag", sum.reduce());
   // the two-bag idiom of bulk-synchronous applications: the filled bag is swapped / moved into another one, further
   // per-thread objects (reducers, a second loop) are created afterwards, and the contents must still be the same
   {
@@ -112,8 +126,8 @@ static void collections() {
     for (int i = 0; i < (int)wl_range(1, 5); i++) grow.emplace_back();
     galois::do_all(galois::iterate(cur), [&](long x) { s2 += x; mx.update(x); cnt += 1; for (auto& g : grow) g += 1; }, galois::steal(), galois::chunk_size<2>());
     cmp(how == 2 ? "InsertBag after move construction" : "InsertBag after swap", std::multiset<long>(cur.begin(), cur.end()));
-    if (s2.reduce() != es || cnt.reduce() != expect.size()) vsim_fail("c15.collection", "do_all over the swapped InsertBag: sum %ld count %zu, expected %ld / %zu", s2.reduce(), cnt.reduce(), es, expect.size());
-    for (auto& g : grow) if (g.reduce() != (long)expect.size()) vsim_fail("c15.reduce.moved", "a reducer that was moved while a vector grew reduces to %ld, expected %zu", g.reduce(), expect.size());
+    if (s2.reduce() != es || cnt.reduce() != expect.size()) { if (fewer) bag_loop_wrong("", 0); else vsim_fail("c15.collection", "do_all over the swapped InsertBag: sum %ld count %zu, expected %ld / %zu", s2.reduce(), cnt.reduce(), es, expect.size()); }
+    for (auto& g : grow) if (g.reduce() != (long)cnt.reduce()) vsim_fail("c15.reduce.moved", "a reducer that was moved while a vector grew reduces to %ld, the loop ran %zu iterations", g.reduce(), cnt.reduce());
     if (how != 2 && !bag.empty()) vsim_fail("c15.collection", "the other side of InsertBag::swap is not empty");
   }
 }
